@@ -1,10 +1,10 @@
 /-
-C02 — whole-stream refinement  model ⊑ Spec.VT500  (round 2).  For every byte stream and every
-split into reads, the list of delivered sequences is what the reference machine of
-Spec/VT500.lean (Williams' table + the documented extensions) prescribes — modulo exactly the three
-recorded deviations:
-  F102  / F102c : the reference machine runs with `devAll` (both `Dev` switches on);
-  F102d         : the cluster oracle respects the stream (`Respects`: no invalid byte / C0 joined);
+C02 — whole-stream refinement  model ⊑ Spec.VT500  (round 2; round 3: F102c and F102d repaired in
+the code, their exclusions are gone).  For every byte stream and every split into reads, the list
+of delivered sequences is what the reference machine of Spec/VT500.lean (Williams' table + the
+documented extensions) prescribes — modulo exactly the one recorded deviation
+  F102 : the reference machine runs with `devAll` = `{ lazyST := true }` (pinned by a baseline test);
+the cluster oracle is only assumed never to join a C0 control (`Respects`: uniseg GB4/GB5),
 and with numbers rendered as Go delivers them (`specSeq`: CSI values wrap in a 64-bit `int`, a DCS
 with a value ≥ 2^63 has nil parameters), `error` reports dropped, adjacent Prints merged (`flat`).
 Property theorems only (lemmas: Lemmas/ParserRefine*.lean).
@@ -12,13 +12,12 @@ Property theorems only (lemmas: Lemmas/ParserRefine*.lean).
 import VaxisModel.Lemmas.ParserRefineRun
 import VaxisModel.Lemmas.ParserCodec
 import VaxisModel.Lemmas.ParserUtf8Spec
-import VaxisModel.Lemmas.ParserReadExact
 import VaxisModel.Props.C02Text
 
 namespace VaxisModel.Props.C02Refine
 open VaxisModel.Model.ParserTable VaxisModel.Model.Parser VaxisModel.Model.ParserIO VaxisModel.Model.ParserUtf8
 open VaxisModel.Lemmas.ParserRefine VaxisModel.Lemmas.ParserRefineCheck VaxisModel.Lemmas.ParserRefineConf VaxisModel.Lemmas.ParserRefineStep VaxisModel.Lemmas.ParserRefineRun
-open VaxisModel.Lemmas.ParserRead VaxisModel.Lemmas.ParserCodec VaxisModel.Lemmas.ParserReadExact
+open VaxisModel.Lemmas.ParserRead VaxisModel.Lemmas.ParserCodec
 
 /-- What the Spec prescribes for a rune stream under the deviations `d`: the items that must be
     delivered, then those of the control string still open at the end of input. -/
@@ -30,7 +29,7 @@ def specItems (d : Spec.VT500.Dev) (rs : List Nat) : List Spec.VT500.Item :=
     through the abstract interpreter, meets the requirements of its statements (what is dispatched
     was collected on both sides, exit functions match the state, `execute` only on C0, `param` only
     on 30–3B, …) and establishes the relation of the target state, including `ignoreST` = the Spec's
-    ST-suppression flag with F102/F102c switched on.  (Kernel-decided for runes ≤ 256, interval
+    ST-suppression flag with F102 switched on (F102c is repaired: a C0 executed in `escape` keeps it).  (Kernel-decided for runes ≤ 256, interval
     lemma above.) -/
 theorem step_check (st : StateId) (after fresh : Bool) (c : Nat) : stepCheck st after fresh c = true :=
   stepCheck_all st after fresh c
@@ -66,9 +65,11 @@ theorem codec_dcs_holds (ps : List Nat) (hne : ps ≠ []) (hps : ∀ b ∈ ps, 0
        then some ((Spec.VT500.parseDcsParams ps).map Int.ofNat) else none) :=
   codec_dcs ps hne hps
 
-/-- **model ⊑ Spec, whole byte streams, every read splitting**, modulo exactly the recorded
-    deviations: the reference machine runs with F102/F102c switched on (`devAll`) and the oracle
-    respects the stream (F102d).  `_partial` because of these two exclusions only. -/
+/-- **model ⊑ Spec, whole byte streams, every read splitting**, modulo exactly the one recorded
+    deviation: the reference machine runs with F102 switched on (`devAll`).  The oracle is only
+    assumed never to join a C0 control (a property of uniseg, not of the code).  `_partial` because
+    of F102 only; the exclusions for F102c (`c0ClearsST`) and F102d (oracle off invalid bytes) of
+    round 2 are gone. -/
 theorem model_refines_spec_partial (cl : Nat → Nat) (chunks : List (List UInt8))
     (hR : Respects cl 0 (units (streamOf chunks))) :
     noErr (flat (runChunks handTable cl (natChunks chunks))) =
@@ -76,16 +77,16 @@ theorem model_refines_spec_partial (cl : Nat → Nat) (chunks : List (List UInt8
   rw [runChunks_flat cl (natChunks chunks) hR]
   exact runes_refine_spec _
 
-/-- **… and against the Spec proper** (`Dev.none`) for every stream that never gets into one of the
-    two situations in which F102 / F102c can show (`Avoids`: no ESC into a control string that has
-    no payload yet; no C0 control between the ESC and the `\` of a string terminator). -/
+/-- **… and against the Spec proper** (`Dev.none`) for every stream that never gets into the
+    situation in which F102 can show (`Avoids`: no ESC into a control string that has no payload
+    yet).  A C0 control between the ESC and the `\` of a string terminator is no longer excluded. -/
 theorem model_refines_spec_clean (cl : Nat → Nat) (chunks : List (List UInt8))
     (hR : Respects cl 0 (units (streamOf chunks)))
     (hA : Avoids {} (decodeRunes (streamOf chunks)) = true) :
     noErr (flat (runChunks handTable cl (natChunks chunks))) =
       (specItems Spec.VT500.Dev.none (decodeRunes (streamOf chunks))).map specSeq ++ [.eof] := by
   rw [model_refines_spec_partial cl chunks hR]
-  simp only [specItems, Spec.VT500.runD, runFromD_eq devAll {} _ hA, runFromD_eq Spec.VT500.Dev.none {} _ hA]
+  simp only [specItems, Spec.VT500.runD, runFromD_eq devAll rfl {} _ hA, runFromD_eq Spec.VT500.Dev.none rfl {} _ hA]
 
 /-- The same for the interpreter of the table **regenerated from ansi/parser.go on this run** (what the
     correspondence driver executes): a change to any `case`, statement or `return` of a state
@@ -118,27 +119,26 @@ theorem model_refines_spec_bytes (cl : Nat → Nat) (chunks : List (List UInt8))
   rw [decoder_is_spec]
   exact model_refines_spec_partial cl chunks hR
 
-/-- **Inside the F102d region too — exactly.**  With an oracle that only never joins a C0 control
-    (uniseg: GB4/GB5; invalid bytes may be joined, as after a Prepend character), every byte stream
-    and every read splitting delivers exactly the Spec's items for a rune list `rs` that is the
-    decoded stream position by position, except that an invalid byte may read as U+FFFD (`AltList`):
-    the alteration of F102d is the only one, whatever surrounds it (text, sequences, strings). -/
+/-- **The former F102d region — exactly.**  (Round 2 stated: "the items are the Spec's for a rune
+    list that is the decoded stream except that an invalid byte may read as U+FFFD".)  Now: with an
+    oracle that joins invalid bytes to what precedes them at will (as uniseg does after a Prepend
+    character), every byte stream and every read splitting delivers exactly the Spec's items for the
+    decoded stream itself — no alteration is left.  Same statement as `model_refines_spec_partial`;
+    kept under the round-2 name, with the F102d witness oracle as the example below. -/
 theorem model_refines_spec_exact (cl : Nat → Nat) (chunks : List (List UInt8))
-    (hR : RespectsC0 cl 0 (units (streamOf chunks))) :
-    ∃ rs : List Nat, AltList rs (units (streamOf chunks)) ∧
-      noErr (flat (runChunks handTable cl (natChunks chunks))) = (specItems devAll rs).map specSeq ++ [.eof] := by
-  obtain ⟨rs, h1, h2⟩ := runChunks_flat_exact cl (natChunks chunks) hR
-  exact ⟨rs, h2, by rw [h1]; exact runes_refine_spec rs⟩
+    (hR : Respects cl 0 (units (streamOf chunks))) :
+    noErr (flat (runChunks handTable cl (natChunks chunks))) =
+      (specItems devAll (Spec.VT500.decode (streamOf chunks))).map specSeq ++ [.eof] :=
+  model_refines_spec_bytes cl chunks hR
 
--- the oracle of the F102d witness is admitted here (it joins the invalid byte FF to U+0600) …
-example : RespectsC0 (fun p => if p = 0 then 2 else 1) 0 (units [0xD8, 0x80, 0xFF]) := by decide
--- … and a stream without invalid bytes leaves no freedom: `rs` is the decoded stream
-example (rs : List Nat) (h : AltList rs (units [0x61, 0xC3, 0xA9, 0x1B, 0x5B, 0x6D])) :
-    rs = decodeRunes [0x61, 0xC3, 0xA9, 0x1B, 0x5B, 0x6D] :=
-  h.eq_of_valid (by decide)
+-- the oracle of the F102d witness is admitted (it joins the invalid byte FF to U+0600) …
+example : Respects (fun p => if p = 0 then 2 else 1) 0 (units [0xD8, 0x80, 0xFF]) := by decide
+-- … and the stream is delivered unaltered
+example : noErr (flat (runChunks handTable (fun p => if p = 0 then 2 else 1) (natChunks [[0xD8, 0x80, 0xFF]]))) =
+    [.print 0x600, .print 0xFF, .eof] := by decide
 
-/-- The full statement: the Spec proper (`Dev.none`), any oracle.  False of the code (F102, F102c,
-    F102d: `Witness/F102.lean`). -/
+/-- The full statement: the Spec proper (`Dev.none`), any oracle.  False of the code (F102:
+    `Witness/F102.lean`). -/
 def model_refines_spec_full : Prop :=
   ∀ (cl : Nat → Nat) (chunks : List (List UInt8)),
     noErr (flat (runChunks handTable cl (natChunks chunks))) =
@@ -146,8 +146,8 @@ def model_refines_spec_full : Prop :=
 
 -- non-vacuity of `Avoids`: a stream with CSI, a BEL-terminated and an ST-terminated OSC, text
 example : Avoids {} [0x1B, 0x5B, 0x31, 0x6D, 0x1B, 0x5D, 0x78, 0x07, 0x1B, 0x5D, 0x79, 0x1B, 0x5C, 0x41] = true := by decide
--- … and the two recorded inputs are exactly outside it
-example : Avoids {} [0x1B, 0x5D, 0x1B, 0x5C] = false ∧ Avoids {} [0x1B, 0x5D, 0x30, 0x1B, 0x0A, 0x5C] = false := by decide
+-- … the recorded F102 input is exactly outside it; the former F102c input is inside now
+example : Avoids {} [0x1B, 0x5D, 0x1B, 0x5C] = false ∧ Avoids {} [0x1B, 0x5D, 0x30, 0x1B, 0x0A, 0x5C] = true := by decide
 
 -- non-vacuity: the relation holds initially; a stream through CSI with sub-parameters, OSC, text
 example : R PState.init {} := R_init
